@@ -91,7 +91,7 @@ class C13(Prop):
     ]
     parallel = False
     quick_cases = 1500
-    thorough_cases = 5000
+    thorough_cases = 14000
     quick_deadline_s = 70
     thorough_deadline_s = 780
     rule = ("fault plans on a fresh real IPython 9 shell per plan: 4 cells from a generator of 20 cell kinds (known-name reads, "
